@@ -203,6 +203,7 @@ char **ares_htable_dict_keys(const ares_htable_dict_t *htable, size_t *num)
 
   buckets = ares_htable_all_buckets(htable->hash, &cnt);
   if (buckets == NULL || cnt == 0) {
+    ares_free(buckets); /* may be a zero-sized allocation for an empty table */
     return NULL;
   }
 
@@ -224,6 +225,7 @@ char **ares_htable_dict_keys(const ares_htable_dict_t *htable, size_t *num)
 
 fail:
   *num = 0;
+  ares_free(buckets);
   ares_free_array(out, cnt, ares_free);
   return NULL;
 }
